@@ -315,11 +315,12 @@ pub fn run_property(prop: &'static dyn Prop, tier: Tier, seed: u64, root: &Path)
     let mut crash_notes: Vec<Value> = vec![];
     let mut unconfirmed = 0u64;
     let mut over_budget = 0u64;
+    let mut reruns = 0usize;
     // dedupe incidents by input
     let mut seen_inc: HashSet<String> = HashSet::new();
     for inc in incidents.iter() {
         let key = format!("{}|{:?}|{:?}", inc.sec, inc.input_hex, inc.index);
-        if !seen_inc.insert(key) || seen_inc.len() > 12 {
+        if !seen_inc.insert(key) {
             continue;
         }
         evaluations += 1;
@@ -334,6 +335,36 @@ pub fn run_property(prop: &'static dyn Prop, tier: Tier, seed: u64, root: &Path)
             over_budget += 1;
             continue;
         }
+        // what the in-flight input was, decoded without running it
+        let desc: Option<Value> = {
+            let bytes = inc.input_hex.as_ref().map(|h| unhex(h)).unwrap_or_default();
+            let input = match (&inc.input_hex, inc.index) {
+                (Some(_), _) => Some(Input::Bytes(&bytes)),
+                (None, Some(i)) => Some(Input::Index(i)),
+                _ => None,
+            };
+            if inc.sec == "replays" { None } else { input.and_then(|i| prop.describe(&inc.sec, &i, tier)) }
+        };
+        if inc.kind == "timeout" {
+            // a listed mechanism that is known not to terminate: counted, not re-run
+            if let Some(d) = &desc {
+                if let Some(k) = prop.known(&Viol::new("timeout", "", inc.status.clone(), d.clone())) {
+                    if known.active(id, k) {
+                        let ex = json!({"property": id, "section": inc.sec, "tier": tier.name(), "seed": seed,
+                            "choices_hex": inc.input_hex, "index": inc.index, "signature": "timeout",
+                            "expected": "the case finishes (result or error) without killing the process",
+                            "observed": format!("no result within {}", inc.status), "case": d});
+                        known_hits.entry(k.to_string()).or_insert((0, ex)).0 += 1;
+                        continue;
+                    }
+                }
+            }
+        }
+        reruns += 1;
+        if reruns > 16 {
+            infra.push(format!("more than 16 crash/timeout incidents to confirm; {} at section {} left unconfirmed", inc.kind, inc.sec));
+            continue;
+        }
         let limit = if inc.kind == "timeout" { timeout_s * 4 } else { timeout_s * 2 };
         let (status, timed_out, verdict) = run_alone(&exe, id, tier, root, inc, limit.max(30));
         let died = !timed_out && verdict.is_none();
@@ -344,7 +375,7 @@ pub fn run_property(prop: &'static dyn Prop, tier: Tier, seed: u64, root: &Path)
             json!({"property": id, "section": inc.sec, "tier": tier.name(), "seed": seed,
                    "choices_hex": inc.input_hex, "index": inc.index, "signature": sig,
                    "expected": "the case finishes (result or error) without killing the process",
-                   "observed": obs, "case": verdict.as_ref().and_then(|v| v.get("case").cloned()).unwrap_or(Value::Null)})
+                   "observed": obs, "case": verdict.as_ref().and_then(|v| v.get("case").cloned()).or_else(|| desc.clone()).unwrap_or(Value::Null)})
         };
         if died {
             let sig = format!("abort:{status}");
@@ -364,7 +395,15 @@ pub fn run_property(prop: &'static dyn Prop, tier: Tier, seed: u64, root: &Path)
             if timeout_is_violation {
                 let sig = "timeout".to_string();
                 let ex = mk(&sig, format!("no result within {limit}s when run alone"));
-                viols.entry(sig).or_insert((0, ex)).0 += 1;
+                let kid = prop.known(&Viol::new(&sig, "", "timeout".to_string(), ex["case"].clone()));
+                match kid {
+                    Some(k) if known.active(id, k) => {
+                        known_hits.entry(k.to_string()).or_insert((0, ex)).0 += 1;
+                    }
+                    _ => {
+                        viols.entry(sig).or_insert((0, ex)).0 += 1;
+                    }
+                }
             } else {
                 infra.push(format!("case reproducibly exceeds {limit}s: section {} (see evidence crashes)", inc.sec));
             }
